@@ -8,6 +8,7 @@ import (
 	"net/url"
 	"os"
 	"sync/atomic"
+	"time"
 
 	"github.com/internetarchive/Zeno/internal/pkg/archiver/discard"
 	"github.com/internetarchive/Zeno/internal/pkg/config"
@@ -170,7 +171,17 @@ func VerifH_C02_archive() {
 		log.Start()
 		logger = log.NewFieldedLogger(&log.Fields{"component": "archiver"})
 		startWARCWriter()
-		defer globalArchiver.Client.Close()
+		defer func() {
+			// the WARC client cannot finish while a response body it records is still open: a Close that does not
+			// return is how an unclosed body shows on the real client
+			done := make(chan struct{})
+			go func() { globalArchiver.Client.Close(); close(done) }()
+			select {
+			case <-done:
+			case <-time.After(6 * time.Second):
+				verifrt.Assert(false, "C16 every response body obtained is closed")
+			}
+		}()
 	}
 	seed := models.NewItem("seed-1", &models.URL{Raw: target}, "")
 	_ = seed.GetURL().Parse()
